@@ -1102,6 +1102,86 @@ func boundaryFamily(budget time.Duration) mc.Family {
 }
 
 // ---------------------------------------------------------------------------
+// octal escapes and what follows them
+
+// octalFamily: `\d`, `\dd`, `\ddd` followed by every kind of next character:
+// an escape takes at most three octal digits; 8 and 9 are not octal digits.
+func octalFamily(budget time.Duration) mc.Family {
+	followers := []string{"", "0", "1", "7", "8", "9", "a", "A", " ", "\\n", "\\7", "\\8", "(x)", "\n", "77", "89", "08"}
+	var escapes []string
+	for _, a := range "0137" {
+		escapes = append(escapes, string(a))
+		for _, b := range "057" {
+			escapes = append(escapes, string(a)+string(b))
+			for _, cc := range "0167" {
+				escapes = append(escapes, string(a)+string(b)+string(cc))
+			}
+		}
+	}
+	// reference: PLRM 3.2.2 — \ddd with one to three octal digits; high-order overflow ignored
+	decode := func(body string) []byte {
+		var out []byte
+		for i := 0; i < len(body); {
+			ch := body[i]
+			if ch != '\\' {
+				if ch == '\r' {
+					// (not generated)
+				}
+				out = append(out, ch)
+				i++
+				continue
+			}
+			i++
+			if i >= len(body) {
+				break
+			}
+			switch e := body[i]; {
+			case e >= '0' && e <= '7':
+				v, n := 0, 0
+				for n < 3 && i < len(body) && body[i] >= '0' && body[i] <= '7' {
+					v = v*8 + int(body[i]-'0')
+					i++
+					n++
+				}
+				out = append(out, byte(v))
+			case e == 'n':
+				out = append(out, '\n')
+				i++
+			default:
+				out = append(out, e) // \8 -> 8: the backslash is ignored
+				i++
+			}
+		}
+		return out
+	}
+	n := len(escapes) * len(followers)
+	return mc.Family{Name: "octal-escapes-and-followers", Items: n, Budget: budget,
+		Rule: fmt.Sprintf("item = (octal escape of 1, 2 or 3 digits: %d forms) x (what follows inside the string: %q): the string must read as the escape's byte followed by the follower's bytes; an escape takes at most three octal digits, 8 and 9 end it; non-trivial = all", len(escapes), followers),
+		Body: func(c *mc.Ctx, item int) mc.Verdict {
+			body := "a\\" + escapes[item%len(escapes)] + followers[item/len(escapes)] + "z"
+			want := decode(body)
+			intp := postscript.NewInterpreter()
+			err := intp.ExecuteString("(" + body + ") 7")
+			c.Step()
+			fail := func(detail string) mc.Verdict {
+				v := mc.Fail("C04:string:octal-escape-and-follower", fmt.Sprintf("%s | program %q", detail, "("+body+") 7"))
+				v.Render = fmt.Sprintf("(%s)", body)
+				return v
+			}
+			if err != nil || len(intp.Stack) != 2 {
+				return fail(fmt.Sprintf("error %v, %d objects on the stack", err, len(intp.Stack)))
+			}
+			got, ok := intp.Stack[0].(postscript.String)
+			if !ok || !bytes.Equal([]byte(got), want) {
+				return fail(fmt.Sprintf("read as %q, expected %q", intp.Stack[0], want))
+			}
+			return mc.Pass("octal-ok", true)
+		},
+		CrashKey: func(int) string { return "C04:crash:octal" },
+	}
+}
+
+// ---------------------------------------------------------------------------
 // DSC comments: mixed line ends, and around an eexec section
 
 // mixedLinesFamily: three lines, each a number, a plain comment, a DSC comment
@@ -1351,6 +1431,7 @@ func main() {
 
 			fams = append(fams, boundaryFamily(budget))
 			fams = append(fams, mixedLinesFamily(budget))
+			fams = append(fams, octalFamily(budget))
 
 			n1, b1 := psStringBody(func() []byte {
 				a := make([]byte, 256)
